@@ -197,6 +197,8 @@ def _arg(spec, atoms, lit):
         return MultiValuedValue([atoms[spec[1]], atoms[spec[2]]])
     if k == "any":
         return AnyValue(AnySource.explicit)
+    if k == "anyunion":  # Any | atom: a union with an Any member
+        return MultiValuedValue([AnyValue(AnySource.explicit), atoms[spec[1]]])
     if k == "lit":
         return KnownValue(lit)
     if k == "none":
@@ -285,7 +287,7 @@ def _pick(label: str, seed: int, mod: int) -> bool:
 def cases(tier: str, seed: int) -> List[Case]:
     out: List[Case] = []
     quick = tier == "quick"
-    atom_args = [["atom", 0], ["atom", 2], ["union", 0, 1], ["union", 1, 2], ["any"]]
+    atom_args = [["atom", 0], ["atom", 2], ["union", 0, 1], ["union", 1, 2], ["any"], ["anyunion", 2]]
     lit_args = [["lit"], ["none"], ["litunion"], ["lit2"]]
     fam = [
         ("at", _bodies(_conds(ATOM_CONDS, True)), atom_args, atom_args[:4], ["pos"], ["pos", "kw"]),
@@ -312,7 +314,10 @@ def cases(tier: str, seed: int) -> List[Case]:
     pinned_or = ("def f(x, y):\n    if is_of_type(x, A0) or is_of_type(y, A1):\n        if is_of_type(x, A0):\n            return R0\n"
                  "        else:\n            return R1\n    else:\n        return R2\n")
     pinned_lit = ("def f(x, y):\n    if x == LIT and y is None:\n        return R0\n    elif x == LIT:\n        return R1\n    else:\n        return R2\n")
-    for tag, body, x, y in (("and", pinned_body, ["union", 0, 1], ["union", 1, 2]), ("or", pinned_or, ["union", 0, 2], ["union", 1, 2]),
+    pinned_perm = ("def f(x, y):\n    if is_of_type(x, A0, exclude_any=False):\n        show_error('e0')\n        return R0\n"
+                   "    else:\n        return R1\n")
+    for tag, body, x, y in (("perm", pinned_perm, ["anyunion", 2], ["atom", 0]), ("perm1", pinned_perm, ["anyunion", 1], ["atom", 0]),
+                            ("and", pinned_body, ["union", 0, 1], ["union", 1, 2]), ("or", pinned_or, ["union", 0, 2], ["union", 1, 2]),
                             ("and2", pinned_body, ["union", 0, 2], ["union", 0, 1]), ("lit", pinned_lit, ["lit2"], ["litunion"])):
         out.append(Case("h20", f"pin:{tag}", {"body": body, "x": x, "y": y, "px": "pos", "py": "pos"}, timeout=120 if quick else 300, twin=True))
     return out
